@@ -12,8 +12,61 @@ const RPC_VERSION: &str = "2.0";
 #[serde(untagged)]
 pub enum Message {
     Request(Request),
+    /// A request, whose id is a string.
+    NamedRequest(NamedRequest),
     Response(Response),
     Notification(Notification),
+}
+
+impl Message {
+    /// Requests are handled the same way, whatever their kind of id is.
+    pub fn into_incoming(self) -> Incoming {
+        match self {
+            Self::Request(request) => Incoming::Call(Call {
+                id: Id::Number(request.id),
+                method: request.method,
+                params: request.params,
+            }),
+            Self::NamedRequest(request) => Incoming::Call(Call {
+                id: Id::Name(request.id),
+                method: request.method,
+                params: request.params,
+            }),
+            Self::Response(response) => Incoming::Response(response),
+            Self::Notification(notification) => Incoming::Notification(notification),
+        }
+    }
+}
+
+/// JSON-RPC allows integers and strings as request ids.
+/// The response has to carry the id of its request.
+#[derive(Clone, Debug, PartialEq, Eq, Serialize, Deserialize)]
+#[serde(untagged)]
+pub enum Id {
+    Number(i32),
+    Name(String),
+}
+
+/// A message from the client, as the server phases see it.
+#[derive(Debug)]
+pub enum Incoming {
+    Call(Call),
+    Response(Response),
+    Notification(Notification),
+}
+
+/// A request with either kind of id.
+#[derive(Debug)]
+pub struct Call {
+    id: Id,
+    pub method: String,
+    pub params: Value,
+}
+
+impl Call {
+    pub fn split(self) -> (Value, PreparedResponse) {
+        (self.params, PreparedResponse::new(self.id))
+    }
 }
 
 pub trait ToValue {
@@ -36,19 +89,22 @@ pub struct Request {
     pub params: Value,
 }
 
-impl Request {
-    #[allow(clippy::missing_const_for_fn)]
-    pub fn split(self) -> (Value, PreparedResponse) {
-        (self.params, PreparedResponse::new(self.id))
-    }
+#[derive(Debug, PartialEq, Eq, Serialize, Deserialize)]
+pub struct NamedRequest {
+    jsonrpc: String,
+    id: String,
+    pub method: String,
+    #[serde(default)]
+    pub params: Value,
 }
 
 pub struct PreparedResponse {
-    id: i32,
+    id: Id,
 }
 
 impl PreparedResponse {
-    const fn new(id: i32) -> Self {
+    #[allow(clippy::missing_const_for_fn)]
+    fn new(id: Id) -> Self {
         Self { id }
     }
 
@@ -92,7 +148,7 @@ impl Notification {
 #[derive(Debug, PartialEq, Serialize, Deserialize)]
 pub struct Response {
     jsonrpc: String,
-    id: i32,
+    id: Id,
     #[serde(flatten)]
     answer: ResponseAnswer,
 }
